@@ -581,16 +581,16 @@ func leafSuffixes(t types.Type) []sfx {
 // ---------------- contract application ----------------
 
 type ModTarget struct {
-	Kind   string // field obj M BH ghost map all trace
-	Key    string // field: key prefix
-	FT     types.Type
-	Addr   *Term
-	A, N   *Term
-	Base   *Term
-	Name   string
-	ObjT   types.Type
-	Alloc  *ssa.Alloc
-	Via    []string // pointer fields the address was read through
+	Kind  string // field obj M BH ghost map all trace
+	Key   string // field: key prefix
+	FT    types.Type
+	Addr  *Term
+	A, N  *Term
+	Base  *Term
+	Name  string
+	ObjT  types.Type
+	Alloc *ssa.Alloc
+	Via   []string // pointer fields the address was read through
 }
 
 func (r *FnRun) bindNames(env *Env, names []string, args []Val, argt []types.Type) {
